@@ -10,6 +10,7 @@ pub mod c08;
 pub mod c09;
 pub mod c10;
 pub mod c11;
+pub mod c12;
 pub mod c13;
 pub mod c14;
 pub mod c15;
@@ -31,6 +32,7 @@ pub const ALL: &[(&str, RunFn)] = &[
     ("C09", c09::run),
     ("C10", c10::run),
     ("C11", c11::run),
+    ("C12", c12::run),
     ("C13", c13::run),
     ("C14", c14::run),
     ("C15", c15::run),
